@@ -28,7 +28,7 @@ def gen_config(rng, idx, faults=True, nclients_max=1, allow_raw=True):
     cfg["path"] = rng.choice(list(PATHS))
     big_ok = cfg["qtype"] in (None, "NULL", "PRIVATE", "TXT", "SRV", "MX")
     cfg["m"] = rng.choice([None, None, 50, 100] + ([200, 500, 1200] if big_ok and cfg["qtype"] else []))
-    cfg["M"] = rng.choice([100, 120, 160, 200, 255, 255])
+    cfg["M"] = rng.choice([100, 120, 160, 200, 255, 255, 256, 300, 70000])       # (beyond 255 is documented to mean 255)
     cfg["lazy"] = rng.choice([1, 1, 0])
     cfg["raw"] = bool(allow_raw and rng.random() < 0.12)
     cfg["nclients"] = rng.randint(1, nclients_max)
